@@ -760,4 +760,26 @@ def composeChase (alias : Msg) (segAD : List Bool) (answers : List RR) (segDnsse
                 answer := answers, ns := [], extra := [] },
    { rcode := 0, ad := ad, hasDnssec := segDnssec && q.question.qtype != typeRRSIG, ede := none })
 
+/-! ### the rate limiter's cookie exchange (ahead of edns) -/
+
+inductive RLOut | next | badcookie | drop
+deriving Repr, DecidableEq
+
+def rcodeBadCookie : Nat := 23
+
+/-- `ratelimit.ServeDNS` for an external client under an active limit (decision
+only). `known`: the limiter remembers a cookie for this client; `same`: the
+cookie option the client sent is that one; `allow`: the token bucket's answer.
+The cookie exchange applies to EDNS version 0 only; BADCOOKIE is
+`CancelWithRcode(BADCOOKIE, false)` with the client's cookie completed. -/
+def ratelimitStep (proto : Proto) (q : Query) (known same allow : Bool) : RLOut :=
+  match q.opt with
+  | some o =>
+    if o.version = 0 ∧ (clientCookie o.options).isSome then
+      if !known || same then .next
+      else if proto == .udp then (if allow then .badcookie else .drop)
+      else (if allow then .next else .drop)
+    else if allow then .next else .drop
+  | none => if allow then .next else .drop
+
 end SdnsVerif.Model.Edns
